@@ -527,8 +527,8 @@ def c16_h(ctx: Ctx):
 @rule("C16-i")
 def c16_i(ctx: Ctx):
     """Per-job / per-entry loops are independent: nothing read in one iteration was computed in another."""
-    from .lints import per_item_loops
-    return per_item_loops(ctx, "C16-i", [('signac.import_export:_analyze_directory_for_import', 'a directory is imported with the state point / job of the previous one'), ('signac.import_export:_analyze_zipfile_for_import', 'an archive directory is imported with the state point / job of the previous one'), ('signac.import_export:_analyze_tarfile_for_import', 'an archive directory is imported with the state point / job of the previous one'), ('signac.import_export:_crawl_directory_data_space', 'a directory is paired with the state point parsed for the previous one'), ('signac.import_export:_export_jobs', 'a job is exported to the path computed for the previous one')])
+    from .lints import per_item_loops, late_binding_in_loops
+    return late_binding_in_loops(ctx, "C16-i", ("signac.import_export",)) + per_item_loops(ctx, "C16-i", [('signac.import_export:_analyze_directory_for_import', 'a directory is imported with the state point / job of the previous one'), ('signac.import_export:_analyze_zipfile_for_import', 'an archive directory is imported with the state point / job of the previous one'), ('signac.import_export:_analyze_tarfile_for_import', 'an archive directory is imported with the state point / job of the previous one'), ('signac.import_export:_crawl_directory_data_space', 'a directory is paired with the state point parsed for the previous one'), ('signac.import_export:_export_jobs', 'a job is exported to the path computed for the previous one')])
 
 
 @rule("C16-j")
@@ -538,4 +538,11 @@ def c16_j(ctx: Ctx):
     return swapped_arguments(ctx, "C16-j", ['signac.import_export']) + pure_logging(ctx, "C16-j", ['signac.import_export'])
 
 
-RULES = [c16_a, c16_b, c16_c, c16_d, c16_e, c16_f, c16_g, c16_h, c16_i, c16_j]
+@rule("C16-k")
+def c16_k(ctx: Ctx):
+    """Every file of a job directory is exported / imported, hidden ones included: no glob-pattern enumeration."""
+    from .lints import no_glob_enumeration
+    return no_glob_enumeration(ctx, "C16-k", ("signac.import_export",), "the archive lacks them and the imported jobs have incomplete file trees")
+
+
+RULES = [c16_a, c16_b, c16_c, c16_d, c16_e, c16_f, c16_g, c16_h, c16_i, c16_j, c16_k]
